@@ -38,9 +38,6 @@ theorem mine_snoc_same (t : Nat) (log : List (Entry D R)) (e : Entry D R) (h : e
 theorem mine_snoc_other (t : Nat) (log : List (Entry D R)) (e : Entry D R) (h : e.tid ≠ t) :
     mine t (log ++ [e]) = mine t log := by simp [mine, List.filter_append, h]
 
-/-- the entries whose receiver is wrapper `m` -/
-def onRecv (m : Nat) (log : List (Entry D R)) : List (Entry D R) := log.filter (fun e => e.call.recv == m)
-
 theorem onRecv_snoc_same (m : Nat) (log : List (Entry D R)) (e : Entry D R) (h : e.call.recv = m) :
     onRecv m (log ++ [e]) = onRecv m log ++ [e] := by simp [onRecv, List.filter_append, h]
 
@@ -366,6 +363,25 @@ theorem not_deadlocked_of_inv {n : Nat} {s : State D R} (inv : DfInv n s) : dead
 /-- a call of the live protocol as lock.go with hooks/C13-fix2.patch makes it (T-tie table) -/
 def Good (c : Call D R) : Prop := Live c ∧ c.locked = true ∧ c.opLocked = true
 
+/-- the thread carries an operand snapshot it has not used up yet -/
+def HasSnap (pc : Pc) : Prop := pc = .snapHeld ∨ pc = .snapped ∨ pc = .held 0 ∨ pc = .readDone
+
+/-- snapshot semantics of the operands in a log: the snapshot used by every linearised call with a wrapper
+operand `o` is the data of `o` after a PREFIX of `o`'s own linearised history — the first `opAt` calls on `o`, all of
+which precede the call itself in the log -/
+inductive SnapOk (d0 : Nat → D) : List (Entry D R) → Prop where
+  | nil : SnapOk d0 []
+  | snoc (log : List (Entry D R)) (e : Entry D R) : SnapOk d0 log →
+      (∀ o, e.call.operand = some o → e.opAt ≤ (onRecv o log).length ∧ Lin (d0 o) ((onRecv o log).take e.opAt) e.op) →
+      SnapOk d0 (log ++ [e])
+
+theorem onRecv_append (m : Nat) (a b : List (Entry D R)) : onRecv m (a ++ b) = onRecv m a ++ onRecv m b := by
+  simp [onRecv, List.filter_append]
+
+theorem take_onRecv_snoc (m : Nat) (log : List (Entry D R)) (e : Entry D R) {k : Nat} (h : k ≤ (onRecv m log).length) :
+    (onRecv m (log ++ [e])).take k = (onRecv m log).take k := by
+  rw [onRecv_append, List.take_append_of_le_length h]
+
 structure LinInv (d0 : Nat → D) (progs : Nat → List (Call D R)) (s : State D R) : Prop where
   good : ∀ t, ∀ c ∈ (s.th t).todo, Good c
   pcs : ∀ t, OkPc (s.th t).pc
@@ -380,6 +396,10 @@ structure LinInv (d0 : Nat → D) (progs : Nat → List (Call D R)) (s : State D
   lin : ∀ m, Lin (d0 m) (onRecv m s.log) (s.data m)
   order : ∀ t, (mine t s.log).map (·.call) ++ pending s t = progs t
   res : ∀ t, (s.th t).res = (mine t s.log).map (·.r)
+  /-- the snapshot a thread carries is the operand's data after a prefix of the operand's linearised history -/
+  tsnap : ∀ t c rest o, (s.th t).todo = c :: rest → HasSnap (s.th t).pc → c.operand = some o →
+    (s.th t).opAt ≤ (onRecv o s.log).length ∧ Lin (d0 o) ((onRecv o s.log).take (s.th t).opAt) (s.th t).opLoc
+  esnap : SnapOk d0 s.log
 
 theorem linInv_init (d0 : Nat → D) (dflt : D) (progs : Nat → List (Call D R))
     (h : ∀ t, ∀ c ∈ progs t, Good c) : LinInv d0 progs (init d0 dflt progs) where
@@ -391,6 +411,8 @@ theorem linInv_init (d0 : Nat → D) (dflt : D) (progs : Nat → List (Call D R)
   lin := fun m => rfl
   order := fun t => by simp [init, mine, pending]
   res := fun t => by simp [init, mine]
+  tsnap := fun t c rest o _ hb => by simp [init, HasSnap] at hb
+  esnap := SnapOk.nil
 
 /-- rebuild the invariant after a step of thread `t` that touches neither data nor log -/
 theorem linInv_frame {d0 : Nat → D} {progs : Nat → List (Call D R)} {s : State D R} {t : Nat}
@@ -401,9 +423,11 @@ theorem linInv_frame {d0 : Nat → D} {progs : Nat → List (Call D R)} {s : Sta
     (hothers : ∀ m t', t' ≠ t → s.holder m = some t' → h' m = some t')
     (hholds : ∀ c1 rest1, T'.todo = c1 :: rest1 → InBody T'.pc → h' c1.recv = some t)
     (hsnap : ∀ c1 rest1, T'.todo = c1 :: rest1 → T'.pc = .snapHeld → ∃ o, c1.operand = some o ∧ h' o = some t ∧ T'.opLoc = s.data o)
-    (hfresh : ∀ c1 rest1, T'.todo = c1 :: rest1 → T'.pc = .readDone → T'.loc = s.data c1.recv) :
+    (hfresh : ∀ c1 rest1, T'.todo = c1 :: rest1 → T'.pc = .readDone → T'.loc = s.data c1.recv)
+    (htsnap : ∀ c1 rest1 o, T'.todo = c1 :: rest1 → HasSnap T'.pc → c1.operand = some o →
+      T'.opAt ≤ (onRecv o s.log).length ∧ Lin (d0 o) ((onRecv o s.log).take T'.opAt) T'.opLoc) :
     LinInv d0 progs { holder := h', data := s.data, th := upd s.th t T', log := s.log } := by
-  refine ⟨?_, ?_, ?_, ?_, ?_, inv.lin, ?_, ?_⟩
+  refine ⟨?_, ?_, ?_, ?_, ?_, inv.lin, ?_, ?_, ?_, inv.esnap⟩
   · intro t' c' hc'
     by_cases e : t' = t
     · subst e; simp only [upd_same] at hc'; exact inv.good t' c' (hsub c' hc')
@@ -439,16 +463,21 @@ theorem linInv_frame {d0 : Nat → D} {progs : Nat → List (Call D R)} {s : Sta
     by_cases e : t' = t
     · subst e; simp only [upd_same]; rw [hres]; exact inv.res t'
     · simp only [upd_other _ _ e]; exact inv.res t'
+  · intro t' c1 rest1 o h1 h2 h3
+    by_cases e : t' = t
+    · subst e; simp only [upd_same] at h1 h2 ⊢; exact htsnap c1 rest1 o h1 h2 h3
+    · simp only [upd_other _ _ e] at h1 h2 ⊢; exact inv.tsnap t' c1 rest1 o h1 h2 h3
 
 theorem linInv_acquire {d0 : Nat → D} {progs : Nat → List (Call D R)} {s s' : State D R} {t : Nat}
     {c : Call D R} {rest : List (Call D R)} (inv : LinInv d0 progs s) (htodo : (s.th t).todo = c :: rest)
     (hpc : (s.th t).pc = .start ∨ (s.th t).pc = .snapped)
+    (hsnapNone : (s.th t).pc = .start → c.snapTarget = none)
     (hs : acquireRecv s t (s.th t) c = some s') : LinInv d0 progs s' := by
   obtain ⟨hlive, hl, hol⟩ := inv.good t c (by rw [htodo]; exact List.mem_cons_self)
   have hpend : (s.th t).todo = pending s t := by
     rcases hpc with h | h <;> simp [pending, h]
   rcases acquireRecv_some hs with ⟨_, hfree, rfl⟩ | ⟨hl', _⟩
-  · refine linInv_frame inv _ _ (fun c' hc' => hc') (by simp [OkPc, hlive.rounds]) ?_ rfl ?_ ?_ ?_ ?_
+  · refine linInv_frame inv _ _ (fun c' hc' => hc') (by simp [OkPc, hlive.rounds]) ?_ rfl ?_ ?_ ?_ ?_ ?_
     · simp only [hlive.rounds]; exact hpend
     · intro m t' hne hm
       have : m ≠ c.recv := fun e => by rw [e, hfree] at hm; cases hm
@@ -457,6 +486,14 @@ theorem linInv_acquire {d0 : Nat → D} {progs : Nat → List (Call D R)} {s s' 
       simp only [htodo] at h1; injection h1 with hc _; subst hc; simp
     · intro c1 rest1 _ h2; simp [hlive.rounds] at h2
     · intro c1 rest1 _ h2; simp [hlive.rounds] at h2
+    · intro c1 rest1 o h1 _ h3
+      simp only [htodo] at h1; injection h1 with hc _; subst hc
+      rcases hpc with hp | hp
+      · -- from `start` the receiver is only locked directly when there is no wrapper operand
+        exfalso
+        have hst := hsnapNone hp
+        rw [hlive.snapTarget, h3] at hst; cases hst
+      · exact inv.tsnap t c rest o htodo (by simp [HasSnap, hp]) h3
   · rw [hl] at hl'; cases hl'
 
 theorem linInv_step {d0 : Nat → D} {progs : Nat → List (Call D R)} {s s' : State D R} {t : Nat}
@@ -479,7 +516,7 @@ theorem linInv_step {d0 : Nat → D} {progs : Nat → List (Call D R)} {s s' : S
         · rename_i hfree
           have hs := Option.some.inj hs
           subst hs
-          refine linInv_frame inv _ _ (fun c' hc' => hc') (by simp [OkPc]) (by simp [pending, hpc]) rfl ?_ ?_ ?_ ?_
+          refine linInv_frame inv _ _ (fun c' hc' => hc') (by simp [OkPc]) (by simp [pending, hpc]) rfl ?_ ?_ ?_ ?_ ?_
           · intro m t' hne hm
             have : m ≠ o := fun e => by rw [e, hfree] at hm; cases hm
             simpa only [upd_other _ _ this] using hm
@@ -488,8 +525,14 @@ theorem linInv_step {d0 : Nat → D} {progs : Nat → List (Call D R)} {s s' : S
             simp only [htodo] at h1; injection h1 with hc _; subst hc
             exact ⟨o, hop, by simp, rfl⟩
           · intro c1 rest1 _ h2; simp at h2
+          · -- the snapshot point: the operand's data is the result of its whole linearised history so far
+            intro c1 rest1 o1 h1 _ h3
+            simp only [htodo] at h1; injection h1 with hc _; subst hc
+            rw [hop] at h3; cases h3
+            exact ⟨Nat.le_refl _, by rw [List.take_length]; exact inv.lin o⟩
         · cases hs
-      · exact linInv_acquire inv htodo (Or.inl hpc) hs
+      · rename_i hsn
+        exact linInv_acquire inv htodo (Or.inl hpc) (fun _ => hsn) hs
     · -- snapHeld: release the operand
       rename_i hpc
       obtain ⟨o', ho1, ho2, ho3⟩ := inv.snap t c rest htodo hpc
@@ -498,16 +541,18 @@ theorem linInv_step {d0 : Nat → D} {progs : Nat → List (Call D R)} {s s' : S
       simp only [hol, if_true] at hs
       have hs := Option.some.inj hs
       subst hs
-      refine linInv_frame inv _ _ (fun c' hc' => hc') (by simp [OkPc]) (by simp [pending, hpc]) rfl ?_ ?_ ?_ ?_
+      refine linInv_frame inv _ _ (fun c' hc' => hc') (by simp [OkPc]) (by simp [pending, hpc]) rfl ?_ ?_ ?_ ?_ ?_
       · intro m t' hne hm
         have : m ≠ o' := fun e => by rw [e, ho2] at hm; exact hne (Option.some.inj hm).symm
         simpa only [upd_other _ _ this] using hm
       · intro c1 rest1 _ h2; simp [InBody] at h2
       · intro c1 rest1 _ h2; simp at h2
       · intro c1 rest1 _ h2; simp at h2
+      · intro c1 rest1 o1 h1 _ h3
+        exact inv.tsnap t c1 rest1 o1 h1 (by simp [HasSnap, hpc]) h3
     · -- snapped
       rename_i hpc
-      exact linInv_acquire inv htodo (Or.inr hpc) hs
+      exact linInv_acquire inv htodo (Or.inr hpc) (fun h => by rw [hpc] at h; cases h) hs
     · -- held (k+1): not a state of the live protocol
       rename_i k hpc
       rcases inv.pcs t with h | h | h | h | h | h <;> rw [hpc] at h <;> first | cases h | (injection h with h; omega)
@@ -519,19 +564,21 @@ theorem linInv_step {d0 : Nat → D} {progs : Nat → List (Call D R)} {s s' : S
       have hs := Option.some.inj hs
       subst hs
       have hh := inv.holds t c rest htodo (Or.inl hpc)
-      refine linInv_frame inv _ _ (fun c' hc' => hc') (by simp [OkPc]) (by simp [pending, hpc]) rfl (fun m t' _ hm => hm) ?_ ?_ ?_
+      refine linInv_frame inv _ _ (fun c' hc' => hc') (by simp [OkPc]) (by simp [pending, hpc]) rfl (fun m t' _ hm => hm) ?_ ?_ ?_ ?_
       · intro c1 rest1 h1 _
         simp only [htodo] at h1; injection h1 with hc _; subst hc; exact hh
       · intro c1 rest1 _ h2; simp at h2
       · intro c1 rest1 h1 _
         simp only [htodo] at h1; injection h1 with hc _; subst hc; rfl
+      · intro c1 rest1 o1 h1 _ h3
+        exact inv.tsnap t c1 rest1 o1 h1 (by simp [HasSnap, hpc]) h3
     · -- readDone: write the receiver
       rename_i hpc
       have hs := Option.some.inj hs
       subst hs
       have hh := inv.holds t c rest htodo (Or.inr (Or.inl hpc))
       have hfresh := inv.fresh t c rest htodo hpc
-      refine ⟨?_, ?_, ?_, ?_, ?_, ?_, ?_, ?_⟩
+      refine ⟨?_, ?_, ?_, ?_, ?_, ?_, ?_, ?_, ?_, ?_⟩
       · intro t' c' hc'
         by_cases e : t' = t
         · subst e; simp only [upd_same] at hc'; exact inv.good t' c' hc'
@@ -562,15 +609,15 @@ theorem linInv_step {d0 : Nat → D} {progs : Nat → List (Call D R)} {s s' : S
       · intro m
         by_cases em : m = c.recv
         · subst em
-          show Lin (d0 c.recv) (onRecv c.recv (s.log ++ [{ tid := t, call := c, op := (s.th t).opLoc, r := (c.f (s.th t).loc (s.th t).opLoc).2 }]))
+          show Lin (d0 c.recv) (onRecv c.recv (s.log ++ [{ tid := t, call := c, op := (s.th t).opLoc, opAt := (s.th t).opAt, r := (c.f (s.th t).loc (s.th t).opLoc).2 }]))
             (upd s.data c.recv (c.f (s.th t).loc (s.th t).opLoc).1 c.recv)
           rw [onRecv_snoc_same c.recv s.log _ rfl]
           simp only [upd_same]
-          have := lin_snoc (d := d0 c.recv) { tid := t, call := c, op := (s.th t).opLoc, r := (c.f (s.th t).loc (s.th t).opLoc).2 }
+          have := lin_snoc (d := d0 c.recv) { tid := t, call := c, op := (s.th t).opLoc, opAt := (s.th t).opAt, r := (c.f (s.th t).loc (s.th t).opLoc).2 }
             (inv.lin c.recv) (by simp only [hfresh])
           simp only [hfresh] at this ⊢
           exact this
-        · show Lin (d0 m) (onRecv m (s.log ++ [{ tid := t, call := c, op := (s.th t).opLoc, r := (c.f (s.th t).loc (s.th t).opLoc).2 }]))
+        · show Lin (d0 m) (onRecv m (s.log ++ [{ tid := t, call := c, op := (s.th t).opLoc, opAt := (s.th t).opAt, r := (c.f (s.th t).loc (s.th t).opLoc).2 }]))
             (upd s.data c.recv (c.f (s.th t).loc (s.th t).opLoc).1 m)
           rw [onRecv_snoc_other m s.log _ (fun h => em h.symm)]
           simp only [upd_other _ _ em]
@@ -596,6 +643,19 @@ theorem linInv_step {d0 : Nat → D} {progs : Nat → List (Call D R)} {s s' : S
         · simp only [upd_other _ _ e]
           rw [mine_snoc_other t' s.log _ (fun h => e h.symm)]
           exact inv.res t'
+      · -- snapshots carried by other threads: the history of their operand only grew at the end
+        intro t' c1 rest1 o1 h1 h2 h3
+        by_cases e : t' = t
+        · subst e; simp [upd_same, HasSnap] at h2
+        · simp only [upd_other _ _ e] at h1 h2 ⊢
+          obtain ⟨hle, hlin⟩ := inv.tsnap t' c1 rest1 o1 h1 h2 h3
+          refine ⟨Nat.le_trans hle (by rw [onRecv_append]; simp), ?_⟩
+          show Lin (d0 o1) ((onRecv o1 (s.log ++ [_])).take (s.th t').opAt) (s.th t').opLoc
+          rw [take_onRecv_snoc o1 s.log _ hle]; exact hlin
+      · -- the call being linearised used a snapshot taken at a prefix of its operand's history
+        refine SnapOk.snoc s.log _ inv.esnap ?_
+        intro o1 h3
+        exact inv.tsnap t c rest o1 htodo (by simp [HasSnap, hpc]) h3
     · -- written: release the receiver, next call
       rename_i hpc
       simp only [hl, if_true] at hs
@@ -603,13 +663,14 @@ theorem linInv_step {d0 : Nat → D} {progs : Nat → List (Call D R)} {s s' : S
       subst hs
       have hh := inv.holds t c rest htodo (Or.inr (Or.inr hpc))
       refine linInv_frame inv _ _ (fun c' hc' => by rw [htodo]; exact List.mem_cons_of_mem _ hc') (by simp [OkPc])
-        (by simp [pending, hpc, htodo]) rfl ?_ ?_ ?_ ?_
+        (by simp [pending, hpc, htodo]) rfl ?_ ?_ ?_ ?_ ?_
       · intro m t' hne hm
         have : m ≠ c.recv := fun e => by rw [e, hh] at hm; exact hne (Option.some.inj hm).symm
         simpa only [upd_other _ _ this] using hm
       · intro c1 rest1 _ h2; simp [InBody] at h2
       · intro c1 rest1 _ h2; simp at h2
       · intro c1 rest1 _ h2; simp at h2
+      · intro c1 rest1 o1 _ h2 _; simp [HasSnap] at h2
 
 theorem linInv_reach {d0 : Nat → D} {dflt : D} {progs : Nat → List (Call D R)}
     (h : ∀ t, ∀ c ∈ progs t, Good c) {s : State D R} (hr : Reach (init d0 dflt progs) s) :
